@@ -11,3 +11,15 @@
 
 #[cfg(any(not(verif_dev), verif_dev_auth))]
 pub mod auth;
+
+#[cfg(any(not(verif_dev), verif_dev_cluster))]
+pub mod cluster;
+
+#[cfg(any(not(verif_dev), verif_dev_alloc))]
+pub mod alloc;
+
+#[cfg(any(not(verif_dev), verif_dev_sched))]
+pub mod sched;
+
+#[cfg(any(not(verif_dev), verif_dev_journal))]
+pub mod journal;
